@@ -20,7 +20,7 @@ ASSUMPTIONS = ['blacklist intervals are half-open [start,end) with start<end, as
                'fetch windows are only required to be contained and to extend by at most the fragment size (maximality is reported, not demanded)']
 MIN_NONTRIVIAL = {'quick': 3000, 'thorough': 100000}
 REQUIRED_MONITORS = ['yield:blacklisted_binning', 'yield:blacklisted_binning_window', 'yield:blacklisted_binning_contigs',
-                     'yield:fill_range', 'yield:bp_chunked', 'bed:gz', 'bed:shuffled', 'region:near_or_beyond_2^31', 'history:blacklist_file_rewritten_in_place', 'blacklist:caller_order_unsorted', 'bed:extra_columns_or_blank_separated', 'history:one_blacklist_list_two_tilings']
+                     'yield:fill_range', 'yield:bp_chunked', 'bed:gz', 'bed:shuffled', 'region:near_or_beyond_2^31', 'history:blacklist_file_rewritten_in_place', 'blacklist:caller_order_unsorted', 'bed:extra_columns_or_blank_separated', 'history:one_blacklist_list_two_tilings', 'contigs:names_with_separator_characters']
 EXHAUSTIVE = {'quick': False, 'thorough': True}
 SHARD_TIMEOUT = {'quick': 600, 'thorough': 7200}
 
@@ -235,11 +235,17 @@ def run_case(case):
         r = rng(case['seed'], 'C17', 'contigs', case['i'])
         with Scratch('c17') as d:
             contigs = [(f'c{j}', r.randint(1, 5000)) for j in range(r.randint(1, 6))]
+            if case['i'] % 2 == 1:
+                # contig names as references have them: with colons, asterisks, dots, pipes - also names that are numbers
+                pool = ['HLA-A*01:01', 'HLA-DRB1*15:01:01:01', 'chrUn_KI270302v1', 'NC_000001.11', 'gi|9626243|ref|NC_001416.1|', '12', 'ERCC-00002']
+                r.shuffle(pool)
+                contigs = [(pool[j], ln) if j < 3 else (nm, ln) for j, (nm, ln) in enumerate(contigs)]
+                acc.count('contigs:names_with_separator_characters')
             bld = {}
             lines = []
             for name, ln in contigs:
                 for _ in range(r.choice([0, 1, 2, 4])):
-                    a = r.randint(-10, ln + 10)
+                    a = r.randint(0, ln + 10)       # a BED start is never negative
                     w = r.randint(1, max(2, ln // 2))
                     bld.setdefault(name, []).append((a, a + w))
                     lines.append(f'{name}\t{a}\t{a + w}\n')
@@ -269,7 +275,7 @@ def run_case(case):
                     lines = []
                     for name, ln in contigs:
                         for _ in range(r.choice([0, 1, 2, 4])):
-                            a = r.randint(-10, ln + 10)
+                            a = r.randint(0, ln + 10)
                             w = r.randint(1, max(2, ln // 2))
                             bld.setdefault(name, []).append((a, a + w))
                             lines.append(f'{name}\t{a}\t{a + w}\n')
@@ -278,7 +284,12 @@ def run_case(case):
                     acc.count('history:blacklist_file_rewritten_in_place')
                 B = r.randint(1, 800)
                 wl = None if r.random() < 0.6 else set(n for n, _ in r.sample(contigs, max(1, len(contigs) // 2)))
-                out = list(bbc.blacklisted_binning_contigs(contigs, B, F, blacklist_path=bed, contig_whitelist=wl))
+                try:
+                    out = list(bbc.blacklisted_binning_contigs(contigs, B, F, blacklist_path=bed, contig_whitelist=wl))
+                except Exception as ex:
+                    acc.violate('exception:contigs:' + type(ex).__name__, f'blacklisted_binning_contigs raised {ex!r} on a well-formed BED blacklist ({bed_form})',
+                                {'contigs': contigs, 'B': B, 'F': F, 'bed_form': bed_form, 'bed_lines': lines[:20]})
+                    break
                 acc.evals += 1
                 acc.count('yield:blacklisted_binning_contigs', len(out))
                 per = {}
